@@ -7,10 +7,11 @@ Open Scope list_scope.
 
 (* every task has a tag: its directory and, for a tensor, its key; metadata tasks write no "<key>.memmap" file *)
 Definition tag (t : task) : path * option string :=
-  match t with TPopulate p k _ => (p, Some k) | TWrite p _ => (p, None) end.
+  match t with TPopulate p k _ => (p, Some k) | TWrite p _ _ => (p, None) end.
 Definition meta_only (t : task) : Prop :=
   match t with
-  | TWrite _ (Ok files) => Forall (fun fc => match fst fc with FLeaf _ => False | _ => True end) files
+  | TWrite _ (Ok files) rm => Forall (fun fc => match fst fc with FLeaf _ => False | _ => True end) files
+                              /\ Forall (fun n => match n with FLeaf _ => False | _ => True end) rm
   | _ => True
   end.
 
@@ -33,18 +34,30 @@ Proof.
   - (* files *)
     unfold disjointb. apply forallb_forall. intros x Hx. apply negb_true_iff.
     apply (existsb_false_notin floc_eqb _ _ floc_eqb_eq). intro Hy.
-    destruct a as [p k [o l]|p [fa|ea]], b as [q k' [o' l']|q [fb|eb]]; cbn in *; try contradiction.
+    assert (NL : forall (p : path) (files : list (fname * content)) (rm : list fname) (kk : string),
+               Forall (fun fc => match fst fc with FLeaf _ => False | _ => True end) files ->
+               Forall (fun n => match n with FLeaf _ => False | _ => True end) rm ->
+               In (p, FLeaf kk) (map (fun fc => (p, fst fc)) files ++ map (fun n => (p, n)) rm) -> False).
+    { intros p files rm kk F1 F2 Hin. apply in_app_or in Hin as [Hin|Hin].
+      - apply in_map_iff in Hin as ([f c] & E & Hin). cbn in E. inversion E; subst.
+        rewrite Forall_forall in F1. apply (F1 _ Hin).
+      - apply in_map_iff in Hin as (n & E & Hin). inversion E; subst. rewrite Forall_forall in F2. apply (F2 _ Hin). }
+    assert (DP : forall (p : path) (files : list (fname * content)) (rm : list fname) (y : floc),
+               In y (map (fun fc => (p, fst fc)) files ++ map (fun n => (p, n)) rm) -> fst y = p).
+    { intros p files rm y Hin. apply in_app_or in Hin as [Hin|Hin].
+      - apply in_map_iff in Hin as (fc & E & _). now subst.
+      - apply in_map_iff in Hin as (n & E & _). now subst. }
+    destruct a as [p k [o l]|p [fa|ea] rma], b as [q k' [o' l']|q [fb|eb] rmb]; cbn in *; try contradiction.
     + destruct (refused o l || Nat.eqb (numel (lshape l)) 0); [contradiction|].
       destruct (refused o' l' || Nat.eqb (numel (lshape l')) 0); [contradiction|].
       destruct Hx as [Hx|[]]. destruct Hy as [Hy|[]]. subst x. inversion Hy; subst. now apply Hab.
     + destruct (refused o l || Nat.eqb (numel (lshape l)) 0); [contradiction|].
-      destruct Hx as [Hx|[]]. subst x. apply in_map_iff in Hy as ([f c] & E & Hin). cbn in E. inversion E; subst.
-      rewrite Forall_forall in Hb. specialize (Hb _ Hin). cbn in Hb. exact Hb.
+      destruct Hx as [Hx|[]]. subst x. pose proof (DP _ _ _ _ Hy) as E. cbn in E. subst q.
+      destruct Hb as [B1 B2]. exact (NL _ _ _ _ B1 B2 Hy).
     + destruct (refused o' l' || Nat.eqb (numel (lshape l')) 0); [contradiction|].
-      destruct Hy as [Hy|[]]. subst x. apply in_map_iff in Hx as ([f c] & E & Hin). cbn in E. inversion E; subst.
-      rewrite Forall_forall in Ha. specialize (Ha _ Hin). cbn in Ha. exact Ha.
-    + apply in_map_iff in Hx as ([f c] & E & Hin). apply in_map_iff in Hy as ([f' c'] & E' & Hin'). cbn in *. subst x.
-      inversion E'; subst. now apply Hab.
+      destruct Hy as [Hy|[]]. subst x. pose proof (DP _ _ _ _ Hx) as E. cbn in E. subst q.
+      destruct Ha as [A1 A2]. exact (NL _ _ _ _ A1 A2 Hx).
+    + pose proof (DP _ _ _ _ Hx) as E1. pose proof (DP _ _ _ _ Hy) as E2. apply Hab. congruence.
 Qed.
 
 Lemma nodup_tags_independent : forall ts, Forall meta_only ts -> NoDup (map tag ts) -> independent ts = true.
@@ -67,11 +80,11 @@ Definition tasks_members (o : opts) (p : path) := fix go (ms : list td) (i : nat
   match ms with [] => [] | m :: r => tasks_of o m (p ++ [string_of_nat i]) ++ go r (S i) end.
 
 Lemma tasks_of_node : forall o bs ents p,
-  tasks_of o (Node bs ents) p = tasks_ents o p ents ++ [TWrite p (Ok [(FMeta, CJson (JObj (node_meta bs ents)))])].
+  tasks_of o (Node bs ents) p = tasks_ents o p ents ++ [TWrite p (Ok [(FMeta, CJson (JObj (node_meta bs ents)))]) []].
 Proof. reflexivity. Qed.
 Lemma tasks_of_lazy : forall o sd ms p,
   tasks_of o (Lazy sd ms) p
-  = TWrite p (Ok [(FMeta, CJson (JObj [("_type", JStr "LazyStackedTensorDict"); ("stack_dim", jnat sd)]))]) :: tasks_members o p ms 0.
+  = TWrite p (Ok [(FMeta, CJson (JObj (lazy_meta sd (List.length ms))))]) [] :: tasks_members o p ms 0.
 Proof. reflexivity. Qed.
 
 Definition keys_distinct_ents := fix all (es : list (string * td)) : bool :=
@@ -86,15 +99,15 @@ Proof. reflexivity. Qed.
 Definition under (p : path) (g : path * option string) : Prop := exists r, fst g = p ++ r.
 Definition strictly_under (p : path) (k : string) (g : path * option string) : Prop := exists r, fst g = p ++ k :: r.
 
-Lemma ndata_meta_only : forall p pl, meta_only (TWrite p (ndata_files pl [])).
+Lemma ndata_meta_only : forall p bs pl, meta_only (TWrite p (ndata_files bs pl []) (if is_json_serializable pl then [FOther] else [])).
 Proof.
-  intros p pl. unfold ndata_files. destruct (is_json_serializable pl).
+  intros p bs pl. unfold ndata_files. destruct (is_json_serializable pl).
   - destruct (json_of pl); cbn; auto; repeat constructor.
   - cbn. repeat constructor.
 Qed.
-Lemma nstack_meta_only : forall p d, meta_only (TWrite p (nstack_files d [])).
+Lemma nstack_meta_only : forall p n d, meta_only (TWrite p (nstack_files n d []) []).
 Proof.
-  intros p d. unfold nstack_files. destruct (is_json_serializable d).
+  intros p n d. unfold nstack_files. destruct (is_json_serializable d).
   - destruct (json_of d); cbn; auto; repeat constructor.
   - cbn. repeat constructor.
 Qed.
